@@ -10,8 +10,9 @@
    declared signatures, the 14 scope-restricted statements, 23 operators x 10 target types x the existing
    (value type, form) cells; positions45 = the nine scopes + the 36 two-scope annotations. *)
 From Coq Require Import NArith List String Bool.
+From Falco Require Import Model.Val Model.Assign.
 From Falco Require Import Base.TablesBase Model.ScopeMask Model.LintTables Model.LintOps Model.TablesDomain
-  Proofs.ScopeMaskProofs Proofs.TablesProofs.
+  Model.InterpAssign Proofs.ScopeMaskProofs Proofs.TablesProofs Proofs.InterpAssignProofs.
 From Falco Require Import Gen.LintConsts Gen.LintVars Gen.LintDyn Gen.LintFuncs Gen.RefVars Gen.RefFuncs Gen.InterpFuncs.
 From Falco Require Import Gen.ObsVars Gen.ObsFuncs Gen.ObsStmts Gen.ObsOps Gen.ObsWide Gen.KnownGaps.
 Import ListNotations.
@@ -152,6 +153,28 @@ Theorem C05_lint_sub_interp_stmts : forall k lint interp p,
   N.testbit interp p = true \/ gap_covers "stmt-interp" k "" p = true.
 Proof. exact lint_sub_interp_stmts. Qed.
 
+(* ---- the simulator side of the operator table as a MODEL (Model/InterpAssign.v mirrors the type switches of
+   interpreter/assign/*.go, doAssign, the header path of AllScopeVariables.Set and interpreter/operator):
+   the model is the observed simulator on every cell ... *)
+Theorem C05_interp_assign_model_eq_observed : forall op lty lint interp p rty form,
+  In (op, lty, lint, interp) obs_ops -> In (p, rty, form) op_cells_existing ->
+  interp_op_model op lty rty form = N.testbit interp p.
+Proof. exact interp_assign_model_eq_observed. Qed.
+
+(* ... and the inclusion holds between the two MODELS on the whole product (no observed table in the statement) *)
+Theorem C05_lint_sub_interp_ops_models : forall op lty p rty form,
+  In op all_ops -> In lty op_types -> In (p, rty, form) op_cells_existing ->
+  lint_op_model op lty rty form = true ->
+  interp_op_model op lty rty form = true \/ gap_covers "op-interp" op lty p = true.
+Proof. exact lint_sub_interp_ops_models. Qed.
+
+(* the decision table agrees with the value model of interpreter/assign (Model/Assign.v) on the scalar types *)
+Theorem C05_interp_assign_agrees_with_value_model : forall o lt rt lit,
+  In o Assign.all_aops -> In lt scalar_types -> In rt scalar_types -> (lit = true -> has_literal rt = true) ->
+  is_aok (Assign.assign any_address o (sample true lt) (Val.mkOp (sample false rt) lit))
+  = do_assign_ok (op_name o) (vt_of lt) (vt_of rt) lit.
+Proof. exact interp_assign_agrees_with_value_model. Qed.
+
 (* where both sides give a type to a read of the variable it is the same type *)
 Theorem C05_lint_types_eq_interp : forall n tys s t,
   In (n, tys) obs_var_types -> In s positions9 ->
@@ -171,11 +194,6 @@ Theorem C05_lint_sub_interp_calls_refuted : exists n i lint interp p,
   In (n, i, lint, interp) obs_funcs /\ In p positions45 /\
   N.testbit lint p = true /\ N.testbit interp p = false.
 Proof. exact lint_sub_interp_calls_refuted. Qed.
-
-Theorem C05_lint_sub_interp_ops_refuted : exists op lty lint interp p rty form,
-  In (op, lty, lint, interp) obs_ops /\ In (p, rty, form) op_cells_existing /\
-  N.testbit lint p = true /\ N.testbit interp p = false.
-Proof. exact lint_sub_interp_ops_refuted. Qed.
 
 Print Assumptions C05_mask_all_iff.
 Print Assumptions C05_mask_some_iff.
@@ -200,7 +218,9 @@ Print Assumptions C05_lint_sub_interp_ops.
 Print Assumptions C05_lint_sub_interp_vars.
 Print Assumptions C05_lint_sub_interp_calls.
 Print Assumptions C05_lint_sub_interp_stmts.
+Print Assumptions C05_interp_assign_model_eq_observed.
+Print Assumptions C05_lint_sub_interp_ops_models.
+Print Assumptions C05_interp_assign_agrees_with_value_model.
 Print Assumptions C05_lint_types_eq_interp.
 Print Assumptions C05_lint_sub_interp_vars_refuted.
 Print Assumptions C05_lint_sub_interp_calls_refuted.
-Print Assumptions C05_lint_sub_interp_ops_refuted.
